@@ -98,7 +98,7 @@ def templates(tier, seed):
     RK = ["rect", "circle", "ellipse", "line", "g", "surround"]
     for cont in ("rect", "circle", "ellipse"):
         for n in (1, 2, 3):
-            combos = list(itertools.product(RK, repeat=n)) if n < 3 else [tuple(random.Random(7 * i).sample(RK, 3)) for i in range(12)]
+            combos = list(itertools.product(RK, repeat=n)) if (n < 3 or tier == "thorough") else [tuple(random.Random(7 * i + seed).sample(RK, 3)) for i in range(12)]
             for refs in combos:
                 for mg in MARGINS:
                     for order in ("after", "before"):
@@ -114,8 +114,6 @@ def templates(tier, seed):
                 for mg in MARGINS:
                     tds.append(dict(fam="inside", cont=cont, refs=list(refs), mg=mg, order="after"))
     tds.append(dict(fam="both", cont="rect", refs=["rect"], mg="none", order="after"))
-    if tier == "quick":
-        tds = sample_quota(tds, lambda t: (t["fam"], t["cont"]), {"surround": 60, "inside": 40, "both": 1}, seed)
     return tds
 
 
